@@ -50,6 +50,18 @@ def wrapped_ctor(F):
     return new[0], eh[0], nx[0]
 
 
+def search_args(body, full):
+    """The canonical argument list (tree/root, query, width, dimensionality) cut down to the parameters the function actually has: a search that does
+    not take the dimensionality is evaluated without it (and must then derive nothing from anything else — the image ranges are checked per axis)."""
+    n = body['arg_count']
+    if n == len(full):
+        return full
+    tys = [body['locals'][i]['ty'] for i in range(1, n + 1)]
+    if n == len(full) - 1 and not any('Dimensionality' in t for t in tys):
+        return full[:-1]
+    raise AnalysisIncomplete('%s takes %d arguments of types %s' % (body['path'], n, tys))
+
+
 def image_enumeration(ctx, F, dim):
     """-> (constructor body, [(axis, (lo, hi), weight)] , problems)"""
     new, eh, nx = wrapped_ctor(F)
@@ -57,7 +69,7 @@ def image_enumeration(ctx, F, dim):
     root = I.Sym(nf.sym_atom('root'), '&rstar::ParentNode<voronoi::generator::Generator>')
     q = I.arr([RF.sym('q%d' % i) for i in range(3)])
     wd = I.arr([RF.sym('w%d' % i) for i in range(3)])
-    ip.call_body(new, [root, q, wd, routes.dim_value(dim)])
+    ip.call_body(new, search_args(new, [root, q, wd, routes.dim_value(dim)]))
     ctx.evaluations += ip.evaluations
     evs = [e for e in ip.events if e.callee == eh['path']]
     return new, eh, ip, evs
@@ -90,10 +102,13 @@ def image_ranges(ctx, F, dim):
                     names = [n for n, _ in chain]
                     rec, li = loop_record_of(ip, x)
                     txt = repr(I.frozen(rec['init'][li]))
-                    m = re.search(r'RangeInclusive::new\((-?\d+), (-?\d+)\)', txt)
+                    ms = re.findall(r'RangeInclusive::new\((-?\d+), (-?\d+)\)', txt)
+                    m = re.search(r'RangeInclusive::new\((-?\d+), (-?\d+)\)', txt) if len(ms) == 1 and 'ite(' not in txt else None
                     bad_ad = [n for n in names if n not in ('into_iter', 'clone', 'new')]
                     if m and not bad_ad and k not in used:
                         rng = (int(m.group(1)), int(m.group(2)))
+                    elif len(ms) > 1 or 'ite(' in txt:
+                        comps[c] = 'a range chosen at run time: %s' % txt[:120]
                     used.add(k)
         out.append(rng)
     return new, e, out, comps
@@ -157,7 +172,7 @@ def r3(ctx, F, rule, sfx):
     w = F.body_by_suffix('rtree_nn::wrapping_nn_iter')
     new, eh, nx = wrapped_ctor(F)
     ip = I.Interp(F, no_inline=[new['path']])
-    ip.call_body(w, [I.Sym(nf.sym_atom('rtree'), '&rstar::RTree<Generator>'), I.sym_vec3('q'), I.sym_vec3('W'), routes.dim_value(None)])
+    ip.call_body(w, search_args(w, [I.Sym(nf.sym_atom('rtree'), '&rstar::RTree<Generator>'), I.sym_vec3('q'), I.sym_vec3('W'), routes.dim_value(None)]))
     ctx.evaluations += ip.evaluations
     ev = [e for e in ip.events if e.callee == new['path']]
     if len(ev) != 1:
@@ -166,14 +181,14 @@ def r3(ctx, F, rule, sfx):
     ret = I.frozen(ip.stack[0].cells[0].v) if ip.stack else None
     rv, _ = (None, None)
     ip_r = I.Interp(F, no_inline=[new['path']])
-    rv, _ = ip_r.call_body(w, [I.Sym(nf.sym_atom('rtree'), '&rstar::RTree<Generator>'), I.sym_vec3('q'), I.sym_vec3('W'), routes.dim_value(None)])
+    rv, _ = ip_r.call_body(w, search_args(w, [I.Sym(nf.sym_atom('rtree'), '&rstar::RTree<Generator>'), I.sym_vec3('q'), I.sym_vec3('W'), routes.dim_value(None)]))
     ch, src = stream_chain(I.frozen(rv))
     names = [n for n, _ in ch]
     okc = names in (['map', 'new'], ['new', 'map', 'new']) or (names[:1] == ['new'] and names[1:] == ['map', 'new'])
     okc = [n for n in names if n not in ('new', 'root')] == ['map'] and names[:1] in (['map'], ['new']) and 'RTreeWrappingNearestNeighbourIter' in repr(I.frozen(rv))
     ctx.check(rule, 'wrapped-stream-unfiltered' + sfx, okc, ' <- '.join(names), 'Box::new(search.map(item -> (id, shift))): every candidate the search yields reaches the builder, in order', where(w), key_extra='stream:%s' % ','.join(n for n in names if n not in ('new', 'map', 'root')))
     a = ev[0].fargs
-    ok = repr(a[1]).replace(' ', '') == 'array{0:q.x,1:q.y,2:q.z}' and repr(a[2]).replace(' ', '') == 'array{0:W.x,1:W.y,2:W.z}' and repr(a[3]) == 'dim'
+    ok = repr(a[1]).replace(' ', '') == 'array{0:q.x,1:q.y,2:q.z}' and repr(a[2]).replace(' ', '') == 'array{0:W.x,1:W.y,2:W.z}' and (len(a) < 4 or repr(a[3]) == 'dim')
     ctx.check(rule, 'query-and-width-passed-componentwise' + sfx, ok, '%s %s' % (repr(a[1])[:50], repr(a[2])[:50]), '[q.x,q.y,q.z], [w.x,w.y,w.z]', where(w, ev[0].line), key_extra='ctor-args')
 
 
